@@ -215,7 +215,7 @@ NOT_APPLICABLE = {
  "C10": "the codecs are the third-party `encoding` crate behind trait objects (one symbolic character: no verdict in 900 s on Kani; not MIR of the repository); the term<->set wiring is a finite concrete table with no quantifier for a solver",
  "C19": "lossless transcoding goes through the global registry, a file object and image codecs (flate2, jpeg): no unit within reach; UncompressedAdapter composition not built",
  "C20": "RLE decode_frame on 2 pixels had no verdict in 900 s on Kani (Vec::resize, Cursor, io::copy, read_to_end); the Engine M vocabulary for these was not built",
- "C23": "serde_json::Value deserialisation (maps, strings of data-dependent length) exceeded 24 GB in SAT on Kani for one element; the dicom-json visitor side was not encoded on Engine M",
+ "C23": "serde_json::Value deserialisation (maps, strings of data-dependent length) exceeded 24 GB in SAT on Kani for one element; the serialiser is decided under C24 and the element visitor's member handling (no panic) under C05 on Engine M, but joining them needs serde_json::from_value over real JSON values, which is outside the interpreter's vocabulary: the round trip is not claimed",
  "C30": "release/abort conformance needs associations over a harness stream (hook) and a symbolic peer; not built; true two-peer interleavings are outside both engines",
  "C32": "file-system effect of a bin crate's TCP loop (sockets, threads, global registry, write_to_file); no callable unit to execute symbolically, Kani has no file-system model",
  "C33": "behaviour of the storescu binary over sockets with image transcoding; not encodable within reach of Kani or the MIR interpreter",
